@@ -9,12 +9,21 @@ namespace SciVerif.C15.Drive
 * `{"k":"ast","items":[…]}` — a program tree; answer: the rendered lines (the harness
   builds the DIP text from *these*, so the theorem's `render` is what the real parser sees),
   the model's result on them and the specification's result.
-  item = `["n",name,isMod,v]` | `["g",name,extra,items]`
-       | `["b",[[c,extra,items],…],null|[extra,items],explicitEnd]`
-* `{"k":"lines","lines":[[indent,kind,name,v],…]}` with kind ∈ n,m,g,c1,c0,else,end —
-  a raw line sequence; answer: text, the model's result, and whether the declarative
-  specification calls some `@else`/`@end` misplaced.
+  item = `["n",name,isMod,v,[[extra,prop],…]]` | `["p",prop]` | `["g",name,extra,items]`
+       | `["b",[parent parts],[[c,extra,items],…],null|[extra,items],explicitEnd]`
+  prop = `"const"` | `"tags:<t>"`
+* `{"k":"lines","lines":[[indent,kind,[name parts],v],…]}` with kind ∈ n,m,g,c1,c0,else,end,
+  p:const, p:tags:<t> — a raw line sequence; answer: text, the model's result, and whether the
+  declarative specification calls some clause line misplaced.
 -/
+
+def parseProp (s : String) : Except String PKind :=
+  if s == "const" then pure .constant
+  else if s.startsWith "tags:" then pure (.tags ((s.drop 5).toString))
+  else throw s!"bad prop {s}"
+
+def getStrList (j : Json) : Except String (List String) := do
+  (← getList j).mapM (fun x => x.getStr?)
 
 partial def parseItems (j : Json) : Except String Items := do
   let a ← getList j
@@ -29,9 +38,17 @@ where
   parseItem (j : Json) : Except String Item := do
     let a ← getList j
     match a with
-    | [Json.str "n", Json.str name, m, v] => pure (.node name (← m.getBool?) (← v.getInt?))
+    | [Json.str "n", Json.str name, m, v, props] =>
+      let ps ← (← getList props).mapM (fun q => do
+        let p ← getList q
+        match p with
+        | [e, Json.str k] => pure ((← e.getNat?), (← parseProp k))
+        | _ => throw "bad node prop")
+      pure (.node name (← m.getBool?) (← v.getInt?) ps)
+    | [Json.str "p", Json.str k] => pure (.prop (← parseProp k))
     | [Json.str "g", Json.str name, e, body] => pure (.group name (← e.getNat?) (← parseItems body))
-    | [Json.str "b", cls, els, ee] =>
+    | [Json.str "b", pfx, cls, els, ee] =>
+      let pfx ← getStrList pfx
       let cl ← getList cls
       let ee ← ee.getBool?
       let tail : Chain ← (match els with
@@ -50,21 +67,45 @@ where
       | [] => throw "block without clause"
       | (c, e, body) :: rest =>
         let chain := rest.foldr (fun (t : Bool × Nat × Items) acc => Chain.case t.1 t.2.1 t.2.2 acc) tail
-        pure (.block c e body chain)
+        pure (.block pfx c e body chain)
     | _ => throw s!"bad item {j}"
+
+def dotted (l : List String) : String := ".".intercalate l
+
+def clausePfx (l : List String) : String := if l.isEmpty then "" else dotted l ++ "."
+
+def propText : PKind → String
+  | .constant => "!constant"
+  | .tags t => "!tags [\"" ++ t ++ "\"]"
 
 def lineText (l : Line) : String :=
   match l.kw with
-  | .node false v => s!"{l.name} int = {v}"
-  | .node true v => s!"{l.name} = {v}"
-  | .group => l.name
-  | .case true => "@case true"
-  | .case false => "@case false"
-  | .els => "@else"
-  | .fin => "@end"
+  | .node false v => s!"{dotted l.name} int = {v}"
+  | .node true v => s!"{dotted l.name} = {v}"
+  | .group => dotted l.name
+  | .prop p => propText p
+  | .case true => clausePfx l.name ++ "@case true"
+  | .case false => clausePfx l.name ++ "@case false"
+  | .els => clausePfx l.name ++ "@else"
+  | .fin => clausePfx l.name ++ "@end"
 
 def linesJson (ls : List Line) : Json :=
   jarr (fun (l : Line) => Json.arr #[jnat l.indent, jstr (lineText l)]) ls
+
+/-- The lines in the format the `lines` request accepts (for the mutation stream). -/
+def lineSpecs (ls : List Line) : Json :=
+  jarr (fun (l : Line) =>
+    let (k, v) : String × Int := match l.kw with
+      | .node false v => ("n", v)
+      | .node true v => ("m", v)
+      | .group => ("g", 0)
+      | .prop .constant => ("p:const", 0)
+      | .prop (.tags t) => ("p:tags:" ++ t, 0)
+      | .case true => ("c1", 0)
+      | .case false => ("c0", 0)
+      | .els => ("else", 0)
+      | .fin => ("end", 0)
+    Json.arr #[jnat l.indent, jstr k, jarr jstr l.name, jint v]) ls
 
 def dataJson (r : Except Unit (List Eff)) : Json :=
   match r with
@@ -72,12 +113,17 @@ def dataJson (r : Except Unit (List Eff)) : Json :=
   | .ok effs =>
     match applyEffs [] effs with
     | .error _ => jstr "err"
-    | .ok d => jarr (fun (p : List String × Int) => Json.arr #[jstr (".".intercalate p.1), jint p.2]) d
+    | .ok d => jarr (fun (r : NodeRec) =>
+        Json.arr #[jstr (dotted r.name), jint r.v, Json.bool r.constant, jarr jstr r.tags]) d
+
+def effJson : Eff → Json
+  | .node name m v => Json.arr #[jstr (dotted name), Json.bool m, jint v]
+  | .prop p => Json.arr #[jstr (propText p)]
 
 def effsJson (r : Except Unit (List Eff)) : Json :=
   match r with
   | .error _ => jstr "err"
-  | .ok effs => jarr (fun (e : Eff) => Json.arr #[jstr (".".intercalate e.name), Json.bool e.isMod, jint e.v]) effs
+  | .ok effs => jarr effJson effs
 
 def stateJson (ls : List Line) : Json :=
   match run St.init ls with
@@ -90,25 +136,28 @@ def ast (j : Json) : Except String Json := do
   let p ← parseItems (← field j "items")
   let ls := p.render 0
   let spec : Except Unit (List Eff) := .ok (p.sem [])
-  pure (Json.mkObj [("lines", linesJson ls), ("model", dataJson (parse ls)), ("spec", dataJson spec),
+  pure (Json.mkObj [("lines", linesJson ls), ("specs", lineSpecs ls), ("model", dataJson (parse ls)), ("spec", dataJson spec),
     ("model_effs", effsJson (parse ls)), ("spec_effs", effsJson spec), ("state", stateJson ls),
     ("misplaced", Json.bool (misplaced ls))])
 
 def parseLine (j : Json) : Except String Line := do
   let a ← getList j
   match a with
-  | [i, Json.str k, Json.str name, v] =>
+  | [i, Json.str k, name, v] =>
     let i ← i.getNat?
     let v ← v.getInt?
+    let name ← getStrList name
     match k with
     | "n" => pure ⟨i, name, .node false v⟩
     | "m" => pure ⟨i, name, .node true v⟩
     | "g" => pure ⟨i, name, .group⟩
-    | "c1" => pure ⟨i, "", .case true⟩
-    | "c0" => pure ⟨i, "", .case false⟩
-    | "else" => pure ⟨i, "", .els⟩
-    | "end" => pure ⟨i, "", .fin⟩
-    | _ => throw s!"bad line kind {k}"
+    | "c1" => pure ⟨i, name, .case true⟩
+    | "c0" => pure ⟨i, name, .case false⟩
+    | "else" => pure ⟨i, name, .els⟩
+    | "end" => pure ⟨i, name, .fin⟩
+    | _ =>
+      if k.startsWith "p:" then pure ⟨i, [], .prop (← parseProp ((k.drop 2).toString))⟩
+      else throw s!"bad line kind {k}"
   | _ => throw s!"bad line {j}"
 
 def lines (j : Json) : Except String Json := do
